@@ -417,9 +417,12 @@ func GetSignalCells(
 	bitsInStream := uint(len(bitStream) * 8)
 	bitsLeft := bitsInStream - pos
 
-	// Find the number of signal cells, ignoring any padding.
+	// The cell mask in the header gives the number of signal cells.  (Any
+	// bits after the last cell are padding.)
+	numSignalCells := header.NumSignalCells
 
-	numSignalCells := utils.GetNumberOfSignalCells(bitStream, pos, bitsPerCell)
+	// cellsAvailable is the number of cells that the bit stream can hold.
+	cellsAvailable := int(bitsLeft / bitsPerCell)
 
 	if header.MultipleMessage {
 		// The message doesn't contain all the signal cells but there should be
@@ -429,14 +432,14 @@ func GetSignalCells(
 				bitsPerCell, bitsLeft)
 			return nil, errors.New(message)
 		}
-	} else {
-		// This message should contain all the signal cells.  Check that
-		// there are the expected number.
-		if numSignalCells < header.NumSignalCells {
-			message := fmt.Sprintf("overrun - want %d MSM7 signals, got %d",
-				header.NumSignalCells, numSignalCells)
-			return nil, errors.New(message)
-		}
+	}
+
+	// The message should contain all the signal cells listed in its cell
+	// mask.  Check that the bit stream is long enough to hold them.
+	if cellsAvailable < numSignalCells {
+		message := fmt.Sprintf("overrun - want %d MSM7 signals, got %d",
+			numSignalCells, cellsAvailable)
+		return nil, errors.New(message)
 	}
 
 	// Get the range deltas.
